@@ -46,6 +46,7 @@ def run(ctx):
     res = ctx.drive(ct.PKG, "TestC20", env={"VERIF_TRACE_OUT": base}, label="C20/record", timeout=1500)
     if res is None:
         return
+    ctx.validated -= int(res.get("validated", 0))  # counted when TLC accepts the events, not when they are recorded
     files = (res.get("coverage") or {}).get("trace_files") or []
     ct.validate(ctx, "TracePlacement", files, base + ".cases", "TestC20", {}, "C20", _match,
                 parallel=2, timeout=1500)
